@@ -222,6 +222,13 @@ public:
     QXmppTransferJob::Methods supportedMethods() const;
     void setSupportedMethods(QXmppTransferJob::Methods methods);
 
+#ifdef QXMPP_VERIF_HOOKS
+    /// \cond
+    // verification hook: in-band bytestream block size used for (and accepted from) transfers
+    void verifSetIbbBlockSize(int blockSize);
+    /// \endcond
+#endif
+
     /// \cond
     QStringList discoveryFeatures() const override;
     bool handleStanza(const QDomElement &element) override;
